@@ -1073,6 +1073,55 @@ theorem bad_policy_string_fails_iff_repeat (md : Nat) (lower : PStr → PStr) (b
   rw [hr]
   cases hasDupKey (attrs.map (·.1)) <;> simp
 
+/-- The option has two routes, the builder keyword and `parser_kwargs`: a policy given through `parser_kwargs` alone is
+    the policy in force (it is not overwritten by the absent keyword); a keyword that is passed wins over it. -/
+theorem on_duplicate_routes (a b : OnDupArg) :
+    effectiveOnDup none (some a) = a ∧ effectiveOnDup (some a) none = a ∧ effectiveOnDup (some a) (some b) = a ∧
+    effectiveOnDup none none = .absent := ⟨rfl, rfl, rfl, rfl⟩
+
+/-- … so `ignore` given through `parser_kwargs` keeps the first value of every repeated attribute, exactly as through
+    the keyword (any start tag, any builder configuration). -/
+theorem parser_kwargs_policy_decides (md : Nat) (lower : PStr → PStr) (b : BuilderCfg) (name : PStr)
+    (attrs : List (PStr × Option PStr)) :
+    parseStartTagArg md lower b (effectiveOnDup none (some (.str ignoreStr))) name attrs
+      = some (parseStartTag md lower b .ignore name attrs) ∧
+    parseStartTagArg md lower b (effectiveOnDup none (some (.callable accumulate))) name attrs
+      = some (parseStartTag md lower b (.callable accumulate) name attrs) := by
+  constructor
+  · simp [effectiveOnDup, parseStartTagArg, resolveOnDup, ignoreStr]
+  · simp [effectiveOnDup, parseStartTagArg, resolveOnDup]
+
+/-- Whatever a formatter's own `attributes()` hands back (`sel`: any order, any selection of pairs), every pair is
+    rendered by `_format_tag` itself: one entry per pair in that order, a list or tuple value joined by single spaces. -/
+theorem custom_attributes_still_joined (md : Nat) (f : FmtCfg) (sel : Items) (l : List PStr)
+    (h : formatAttrs md f sel = .ok l) :
+    l.length = sel.length ∧
+    ∀ i (hi : i < sel.length) (hl : i < l.length), formatAttr md f sel[i] = .ok l[i] := by
+  induction sel generalizing l with
+  | nil => simp only [formatAttrs, Res.ok.injEq] at h; subst h; exact ⟨rfl, fun i hi => absurd hi (by simp)⟩
+  | cons p ps ih =>
+    simp only [formatAttrs] at h
+    cases h1 : formatAttr md f p with
+    | valueError => simp [h1, Res.bind] at h
+    | ok a =>
+      cases h2 : formatAttrs md f ps with
+      | valueError => simp [h1, h2, Res.bind] at h
+      | ok as =>
+        simp only [h1, h2, Res.bind, Res.ok.injEq] at h
+        subst h
+        obtain ⟨hlen, hget⟩ := ih as h2
+        refine ⟨by simp [hlen], ?_⟩
+        intro i hi hl
+        cases i with
+        | zero => simpa using h1
+        | succ j =>
+          simp only [List.getElem_cons_succ]
+          exact hget j (by simpa using hi) (by simpa using hl)
+
+example : attributeStringSel 0 ⟨false, id, fun _ => []⟩
+    [(ofS "z", .str (ofS "1")), (ofS "class", .list 1 [ofS "b", ofS "a"]), (ofS "rel", .tuple [ofS "x", ofS "y"])]
+    = .ok (ofS " z=\"1\" class=\"b a\" rel=\"x y\"") := by decide +kernel
+
 /-! ## non-vacuity of the hypotheses used above -/
 
 example : splitWs (ofS " x\tyz ") = [ofS "x", ofS "yz"] :=
